@@ -3,6 +3,10 @@ import TallyVerif.Driver.Classify
 import TallyVerif.Driver.Analyze
 import TallyVerif.Driver.Rules
 import TallyVerif.Driver.Expr
+import TallyVerif.Driver.Report
+import TallyVerif.Driver.RulesFile
+import TallyVerif.Driver.Fmt
+import TallyVerif.Driver.Csv
 /-! `tvdrv`: one JSON object per line in, one canonical JSON object per line out. -/
 open Lean TallyVerif.Driver
 
@@ -14,6 +18,17 @@ def dispatch (j : Json) : Json :=
   | "legacy" => handleLegacy j
   | "transforms" => handleTransforms j
   | "eval" => handleEval j
+  | "report" => handleReport j
+  | "rulesfile" => handleRulesFile j
+  | "viewsfile" => handleViewsFile j
+  | "spacetable" => handleSpaceTable j
+  | "fmt" => handleFmt j
+  | "detect" => handleDetect j
+  | "suggest" => handleSuggest j
+  | "fmtprim" => handleFmtPrim j
+  | "csv" => handleCsv j
+  | "amount" => handleAmount j
+  | "spaces" => handleSpaces j
   | "ping" => obj [("pong", .bool true)]
   | op => obj [("err", .str s!"unknown op {op}")]
 
